@@ -316,7 +316,7 @@ structure RollOk (x : Pair) : Prop where
   leaving : ∀ r rc, get x.child.ca.classes r = some rc → rc.parent = x.ph →
     ∀ k ∈ rc.keys.leaving, InUse x.parent.ca x.ch rc.parentRcn k
 
-theorem requests_fold2 {x : Pair} (na now : Int) (hok : RollOk x) :
+theorem requests_fold2 {x : Pair} (na now : Int) (hok : RollOk x) (hansw : Answerable x) :
     ∀ (rs : List Rcn) (y : Pair), rs.Nodup → y.ch = x.ch → y.ph = x.ph → PairInv2 y →
       ParentSame x.parent.ca y.parent.ca x.ch → BookRel2 x y.parent.ca →
       (∀ r ∈ rs, get y.child.ca.classes r = get x.child.ca.classes r) →
@@ -358,7 +358,10 @@ theorem requests_fold2 {x : Pair} (na now : Int) (hok : RollOk x) :
             intro k hk
             rw [hch]
             exact huse r (List.mem_cons_self ..) rc k hg hp (revoked_sub_keyIds rc.keys k hk)
-              (hok.leaving r rc hg hp k (revoked_sub_leaving rc.keys k hk)))
+              (hok.leaving r rc hg hp k (revoked_sub_leaving rc.keys k hk))) (by
+            intro hreq
+            obtain ⟨R, hR⟩ := hansw r rc hg hp hreq
+            exact ⟨R, by rw [hch]; exact (hans _).trans hR⟩)
           rw [hch] at b3 b4 b5
           refine ⟨rc.keys.revoked, rc.keys.keyIds, b1, revoked_sub_keyIds rc.keys, ?_, ?_, ?_⟩
           · intro r' rc' hne hg' hp' k hk hk2
@@ -430,12 +433,12 @@ theorem requests_fold2 {x : Pair} (na now : Int) (hok : RollOk x) :
         exact (hdone r' hnot).step hch hst hrr hKb (fun rc' hg' hp' => hKother r' rc' hrr hg' hp')
 
 /-- The request branch of `Pair.sync`, any key states. -/
-theorem syncR2_spec {x : Pair} (hinv : PairInv2 x) (hok : RollOk x) (now na : Int)
+theorem syncR2_spec {x : Pair} (hinv : PairInv2 x) (hok : RollOk x) (hansw : Answerable x) (now na : Int)
     (fresh : List KeyId) (hpend : x.child.ca.hasPendingRequests x.ph = true) :
     ReqRun2 x (x.sync now na fresh) na now := by
   unfold Pair.sync
   simp only [hpend, if_true]
-  refine requests_fold2 na now hok _ x (reachable_inv hinv.base.rc).core.nodup rfl rfl hinv (ParentSame.refl _ _)
+  refine requests_fold2 na now hok hansw _ x (reachable_inv hinv.base.rc).core.nodup rfl rfl hinv (ParentSame.refl _ _)
     (fun _ _ => Or.inl rfl) (fun _ _ => rfl) (fun _ _ _ _ _ _ _ h => h) ?_
   intro r hr
   have hnone : get x.child.ca.classes r = none := by
